@@ -13,7 +13,7 @@ LEVEL = 'exploration'
 LEVEL_TEXT = ('seeded exploration of frames x {inline, dict, structured array, HDF5 file (mapping, extra datasets, permuted order)} x '
               'windows x input chunk sizes; byte identity of whole files, every execution in its own fork')
 LEVEL_NOTE = 'trusted: both sides of every comparison run the same code in fresh forks; h5py/HDF5 is real; <= 40 rows'
-TIERS = {'quick': {'cases': 700, 'wall': 40}, 'thorough': {'cases': 150000, 'wall': 780}}
+TIERS = {'quick': {'cases': 1000, 'wall': 40}, 'thorough': {'cases': 150000, 'wall': 780}}
 RULE = ('case = seeded frames written from every source kind with and without a seeded window and input chunk size, compared '
         'bytewise with the inline / pre-sliced reference; non-trivial = a window with from_idx>0 or to_idx<rows was exercised on a '
         'non-inline source with several input chunks; distinct = case digest')
